@@ -4,6 +4,7 @@ pub mod c01;
 pub mod c02;
 pub mod c03;
 pub mod c04;
+pub mod c07;
 pub mod c08;
 pub mod c09;
 pub mod c10;
@@ -16,6 +17,7 @@ pub mod c16;
 pub mod c17;
 pub mod c18;
 pub mod c19;
+pub mod c20;
 
 pub fn property(id: &str, tier: Tier) -> Option<PropertyDef> {
 	match id {
@@ -24,8 +26,10 @@ pub fn property(id: &str, tier: Tier) -> Option<PropertyDef> {
 		"C17" => Some(c17::def(tier)),
 		"C18" => Some(c18::def(tier)),
 		"C19" => Some(c19::def(tier)),
+		"C20" => Some(c20::def(tier)),
 		"C15" => Some(c15::def(tier)),
 		"C14" => Some(c14::def(tier)),
+		"C07" => Some(c07::def(tier)),
 		"C12" => Some(c12::def(tier)),
 		"C08" => Some(c08::def(tier)),
 		"C09" => Some(c09::def(tier)),
@@ -39,4 +43,4 @@ pub fn property(id: &str, tier: Tier) -> Option<PropertyDef> {
 	}
 }
 
-pub const ALL: &[&str] = &["C01", "C02", "C03", "C04", "C08", "C09", "C10", "C11", "C12", "C13", "C14", "C15", "C16", "C17", "C18", "C19"];
+pub const ALL: &[&str] = &["C01", "C02", "C03", "C04", "C07", "C08", "C09", "C10", "C11", "C12", "C13", "C14", "C15", "C16", "C17", "C18", "C19", "C20"];
